@@ -18,6 +18,7 @@ mod c14;
 mod c15;
 mod c16;
 mod c17;
+mod c19;
 mod c20;
 
 pub fn level_of(p: &str) -> &'static str {
@@ -46,6 +47,7 @@ fn dispatch(ctx: &Ctx, replay: Option<&serde_json::Value>) {
         "C15" => c15::run(ctx, replay),
         "C16" => c16::run(ctx, replay),
         "C17" => c17::run(ctx, replay),
+        "C19" => c19::run(ctx, replay),
         "C20" => c20::run(ctx, replay),
         p => {
             eprintln!("unknown property {p}");
@@ -59,6 +61,10 @@ fn main() {
     let args: Vec<String> = std::env::args().collect();
     if args.len() >= 2 && args[1] == "--c09-worker" {
         c09::worker();
+        return;
+    }
+    if args.len() >= 2 && args[1] == "--c19-worker" {
+        c19::worker();
         return;
     }
     if args.len() >= 3 && args[1] == "--replay" {
